@@ -10,6 +10,9 @@ from witness import parse_witnesses
 OBS = 'ObsC13'
 QUICK = dict(MaxX=2, Throughputs={0, 2, 3}, Volumes={0, 2, 3, 6}, Limits={0, 1, 2, 6}, Starts={0, 1}, Cancels={0, 1, 2})
 # initial-state enumeration is sequential in TLC: ~42 000 three-transfer scenarios keep the thorough run near 15 min
+# transfers whose limits differ by many orders of magnitude (limit 99 = 1e17, see PipeSem.Huge): three transfers, one
+# of them huge, overlapping so that the huge one ends while the others are still active
+HUGE = dict(MaxX=3, Throughputs={1}, Volumes={1, 3}, Limits={1, 99}, Starts={0, 2}, Cancels={0, 1})
 THOROUGH = dict(MaxX=3, Throughputs={0, 2, 3}, Volumes={3, 6}, Limits={0, 1, 6}, Starts={0, 1}, Cancels={0, 2})
 
 
@@ -63,6 +66,23 @@ def run(check):
                            'distinct': r.distinct, 'generated': r.generated, 'scenarios': len(scenarios),
                            'invariants': ['AllEnd', 'LoneTime', 'ZeroTakesNoTime', 'NotFasterThanLimit'],
                            'wall_s': round(r.wall, 1)})
+    # second scenario space: limits of very different magnitude
+    tlc.write_cfg(cfg, 'Spec', HUGE, invariants=['AllEnd', 'ZeroTakesNoTime', 'NotFasterThanLimit', 'Emit'])
+    with open(cfg) as fh:
+        text = fh.read()
+    with open(cfg, 'w') as fh:
+        fh.write('\n'.join(l for l in text.splitlines()
+                           if not any(l.strip().startswith(k + ' =') for k in tlc.DEFAULTS)) + '\n')
+    r = tlc.run_tlc('Pipe', cfg, workers=8)
+    if r.errors or r.violated:
+        raise core.MachineryError('Pipe.tla (huge limits): %s' % (r.violated or r.errors)[:3])
+    more, bad = parse_witnesses(r)
+    more = [sc for sc in more if any(x['l'] == 99 for x in sc['xs'])]
+    check.states += r.distinct
+    check.transitions += r.generated
+    check.tlc_runs.append({'label': 'scenarios_huge_limits', 'module': 'Pipe', 'constants': core._jsonable(HUGE),
+                           'distinct': r.distinct, 'generated': r.generated, 'scenarios': len(more), 'wall_s': round(r.wall, 1)})
+    scenarios = scenarios + more
     import multiprocessing
     with multiprocessing.get_context('fork').Pool(16) as pool:
         # a transfer is ended early by Task.cancel() or, in a second run of the scenario, by a forced close
